@@ -57,6 +57,7 @@ var props = map[string]propConf{
 	"C17": {Engine: "E4", QuickBudget: 15, ThorBudget: 600},
 	"C16": {Engine: "E1", QuickBudget: 12, ThorBudget: 600},
 	"C14": {Engine: "E1", QuickBudget: 12, ThorBudget: 600},
+	"C15": {Engine: "E2r", Race: true, QuickBudget: 25, ThorBudget: 900, Workers: 8},
 	"C13": {Engine: "E1", QuickBudget: 12, ThorBudget: 600},
 	"C12": {Engine: "E2", QuickBudget: 15, ThorBudget: 600},
 	"C09": {Engine: "E2", QuickBudget: 15, ThorBudget: 600},
@@ -202,7 +203,7 @@ func main() {
 	}
 	switch os.Args[1] {
 	case "build":
-		for _, pc := range []propConf{{}, {Race: true}} {
+		for _, pc := range []propConf{{}, {Race: true}, {Bubble: true}} {
 			b := build(pc)
 			b.cleanup()
 		}
@@ -247,9 +248,12 @@ func cmdReplay(args []string) int {
 	b := build(pc)
 	defer b.cleanup()
 	cmd := workerCmd(b, pc, "-replay", path)
+	if pc.Race {
+		cmd.Env = append(cmd.Env, "GORACE=halt_on_error=1", "GOMAXPROCS=4")
+	}
 	out, err := cmd.CombinedOutput()
 	fmt.Print(string(out))
-	if strings.Contains(string(out), "fatal error:") {
+	if strings.Contains(string(out), "fatal error:") || strings.Contains(string(out), "WARNING: DATA RACE") {
 		fmt.Printf("VIOLATION property=%s replay=%s\n", c.Property, path)
 		return 1
 	}
@@ -332,14 +336,19 @@ func cmdCheck(args []string) int {
 				"-workers", fmt.Sprint(*workers), "-runs", fmt.Sprint(*runs), "-budget", fmt.Sprint(*budget),
 				"-out", out, "-replaydir", replayDir, "-tree", b.tree, "-known", strings.Join(openKeys, ","), "-progress", progress)
 			if pc.Race {
-				cmd.Env = append(cmd.Env, "GORACE=halt_on_error=0 log_path="+filepath.Join(b.scratch, fmt.Sprintf("race-%d", w)))
+				// the first race report ends the worker; the run in flight is recovered from the progress file
+				cmd.Env = append(cmd.Env, "GORACE=halt_on_error=1", "GOMAXPROCS=4")
 			}
 			stderr, err := cmd.CombinedOutput()
 			raw, rerr := os.ReadFile(out)
 			if rerr != nil {
 				// A Go runtime fatal error (concurrent map access, ...) inside the code under test kills the
 				// worker without a summary: that is a finding about the run in flight, not an infrastructure problem.
-				if i := strings.Index(string(stderr), "fatal error:"); i >= 0 && err != nil {
+				i := strings.Index(string(stderr), "fatal error:")
+				if j := strings.Index(string(stderr), "WARNING: DATA RACE"); j >= 0 && (i < 0 || j < i) {
+					i = j
+				}
+				if i >= 0 && err != nil {
 					if v := postMortem(b, pc, id, *tier, seed, progress, string(stderr)[i:], replayDir); v != nil {
 						fatals[w] = v
 						return
@@ -397,17 +406,27 @@ func postMortem(b *built, pc propConf, id, tier string, seed uint64, progress, m
 		return nil
 	}
 	first := msg
-	if i := strings.Index(first, "\n\n"); i > 0 {
-		first = first[:i]
+	inv := id + ".runtime-fatal-error"
+	note := "the Go runtime aborted the process during this run; whether it recurs depends on real goroutine timing the simulator does not own"
+	if strings.HasPrefix(msg, "WARNING: DATA RACE") {
+		inv = id + ".data-race"
+		note = "reported by the Go race detector under the seeded schedule of this run; the worker stops at the first report, the case is not minimised"
+		if len(first) > 3000 {
+			first = first[:3000]
+		}
+	} else {
+		if i := strings.Index(first, "\n\n"); i > 0 {
+			first = first[:i]
+		}
+		if len(first) > 600 {
+			first = first[:600]
+		}
 	}
-	if len(first) > 600 {
-		first = first[:600]
-	}
-	c["violation"] = map[string]any{"invariant": id + ".runtime-fatal-error", "message": first, "step": 0}
-	c["flaky"] = "the Go runtime aborted the process during this run; whether it recurs depends on real goroutine timing the simulator does not own"
+	c["violation"] = map[string]any{"invariant": inv, "message": first, "step": 0}
+	c["flaky"] = note
 	js, _ = json.MarshalIndent(c, "", " ")
 	_ = os.WriteFile(casePath, js, 0o644)
-	return &violationRec{Run: idx, Inv: id + ".runtime-fatal-error", Msg: first, Replay: casePath}
+	return &violationRec{Run: idx, Inv: inv, Msg: first, Replay: casePath}
 }
 
 func tail(s string, n int) string {
